@@ -1898,14 +1898,20 @@ void MatrixColumnMinMax(matrix* m, size_t col, double* min, double* max)
 {
   if(m->row > 0 && col < m->col ){
     size_t i;
+    int first = 1;
     double a;
-    (*min) = (*max) = m->data[0][col];
-    for(i = 1; i < m->row; i++){
+    (*min) = (*max) = MISSING; /* stays MISSING when every entry of the column is missing */
+    for(i = 0; i < m->row; i++){
       a = m->data[i][col];
       if(FLOAT_EQ(a, MISSING, 1e-1)){
         continue;
       }
       else{
+        if(first == 1){ /* start from the first non-missing entry, not from row 0 */
+          (*min) = (*max) = a;
+          first = 0;
+        }
+
         if(a < (*min)){
           (*min) = a;
         }
